@@ -655,9 +655,20 @@ func (w *World) deleteManifest(mr *MRepo, d string) {
 			}
 			mr.staleRef[sj][d] = true
 		}
-		for _, c := range x.view.children {
-			if _, ok := mr.mans[c]; ok {
+		// every manifest below the deleted index is affected on its own: pushing an intermediate index again does not make
+		// the server find its children again (they are only registered when the index file is read)
+		seen := map[string]bool{}
+		stack := append([]string{}, x.view.children...)
+		for len(stack) > 0 {
+			c := stack[len(stack)-1]
+			stack = stack[:len(stack)-1]
+			if seen[c] {
+				continue
+			}
+			seen[c] = true
+			if cx, ok := mr.mans[c]; ok {
 				mr.orphans[c] = "child of a deleted index"
+				stack = append(stack, cx.view.children...)
 			} else if mr.blobs[c] != nil {
 				mr.ghosts[c] = true
 			}
